@@ -301,6 +301,7 @@ class SimSocket:
         self.pending = []          # accepted-but-not-yet-accept()ed connections (listening sockets)
         self.rd_shut = False
         self.wr_shut = False
+        self.rst_reported = False   # (linux profile) the reset has already been reported to the caller once
         self.fd = world.next_fd
         world.next_fd += 1
         world.sockets[self.fd] = weakref.ref(self)
@@ -503,6 +504,12 @@ class SimSocket:
                 k.record('tool', 'recv_timeout', self.fd)
                 raise _socket.timeout('timed out')
         if rx.rst and not (w.rst_keeps_data and rx.buf):
+            if w.rst_keeps_data and self.rst_reported:
+                # (linux profile) the pending error of a socket is reported once, by whichever call meets it first; after that a
+                # reset connection reads as closed
+                k.record('tool', 'recv_eof_after_rst', self.fd)
+                return b''
+            self.rst_reported = True
             k.record('tool', 'recv_rst', self.fd)
             raise ConnectionResetError(errno.ECONNRESET, 'Connection reset by peer')
         if rx.buf:
@@ -528,6 +535,9 @@ class SimSocket:
             raise BrokenPipeError(errno.EPIPE, 'Broken pipe')
         if self.end.rx.rst:
             k.record('tool', 'send_rst', self.fd)
+            if w.rst_keeps_data and not self.rst_reported:
+                self.rst_reported = True
+                raise ConnectionResetError(errno.ECONNRESET, 'Connection reset by peer')
             raise BrokenPipeError(errno.EPIPE, 'Broken pipe')
         data = bytes(data)
         if w.sndbuf and len(data) > w.sndbuf:
